@@ -1,5 +1,44 @@
 """Property -> machinery."""
 PROPS = {
+    "C02": {
+        "x": [],
+        "extra": ["harness.pC02.run"],
+        "engines": ["engine-t"],
+        "engine": "engine-t",
+        "level": "translation_validation",
+        "explanation": "Engine T per input: x ranges over the renumbered compiler output of families F1-F4; the real "
+                       "decompiler's text is compiled by the real compiler and z3 decides, per routine, trace "
+                       "equivalence of the SSB machine on x and on compile(decompile(x)) for all outcome sequences "
+                       "(Q1) with completeness threshold (Q2); routine tables compared directly. The structuring "
+                       "passes run on igraph and are not executed symbolically: the routine-set dimension is "
+                       "enumerated. Inputs in the recorded known-finding classes are reported as KNOWN-FINDING.",
+        "technique": "z3 BMC trace equivalence between input routines and compile(decompile(input)), per "
+                     "enumerated input",
+        "level_text": "Per input, equality of behaviour on all paths is solver-decided; the input space is a "
+                      "generated family, so this is translation validation, not a proof over all routine sets.",
+        "level_note": "Trusted: spec/ssb_machine.py, z3, and the compiler for the second leg (validated against the "
+                      "reference semantics by C01). Known decompiler defects are listed by input class.",
+        "assumptions": ["routine-set dimension enumerated", "reading the text with the real compiler (checked by C01)"],
+    },
+    "C06": {
+        "x": [],
+        "extra": ["harness.pC06.run"],
+        "engines": ["engine-t"],
+        "engine": "engine-t",
+        "level": "other",
+        "explanation": "E4 (enumerated inputs F6: compiler output of F1-F4 and seeded raw well-formed op lists): the "
+                       "real convert() must return (text, map) within the time limit; a fallback answer (marker line) "
+                       "is compiled by the real ExplorerScript compiler and compared with the input op for op. "
+                       "Solver-decided parts (marker parsing for all bodies, exception funnel, fallback exactness over "
+                       "symbolic op lists) are Engine X obligations.",
+        "technique": "CrossHair symbolic execution of marker parsing / exception funnel / SsbScript round trip; "
+                     "enumerated totality over generated routine sets",
+        "level_text": "Totality over routine sets cannot be solver-decided (igraph); it is enumerated and stated as "
+                      "such. Marker and fallback exactness are solver-decided within bounds.",
+        "level_note": "Trusted: CrossHair, z3. Known decompiler defects (raises / non-termination) are listed by input "
+                      "class or call site in known_findings.json.",
+        "assumptions": ["routine-set dimension enumerated"],
+    },
     "C01": {
         "x": [],
         "extra": ["harness.pC01.run"],
